@@ -190,7 +190,7 @@ def extract_default(
             )
             rest_offset += offset
 
-        fst = line[: _start_idx - 1]
+        fst = line[: max(_start_idx - 1, 0)]  # an announcement that starts the line has nothing in front of it
         return fst + line[rest_offset:], default
 
 
